@@ -362,6 +362,10 @@ class Program:
                 continue
             if isinstance(n, ast.Lambda):
                 q = f"{base}.<lambda@{n.lineno}:{n.col_offset}>"
+                k = 1
+                while q in m.functions and m.functions[q].node is not n:      # two lambdas of a rewritten statement carry the same position
+                    k += 1
+                    q = f"{base}.<lambda@{n.lineno}:{n.col_offset}#{k}>"
                 li = FuncInfo(q, m, n, cls=fi.cls, parent=fi)
                 m.functions[q] = li
                 fi.children.append(li)
@@ -373,6 +377,14 @@ class Program:
         for n in ast.walk(st):
             if isinstance(n, ast.Lambda):
                 q = f"{prefix}<lambda@{n.lineno}:{n.col_offset}>"
+                if q in m.functions and m.functions[q].node is n:
+                    continue
+                k = 1
+                while q in m.functions:         # two lambdas of a rewritten statement carry the same position
+                    k += 1
+                    q = f"{prefix}<lambda@{n.lineno}:{n.col_offset}#{k}>"
+                    if q in m.functions and m.functions[q].node is n:
+                        break
                 if q in m.functions:
                     continue
                 li = FuncInfo(q, m, n, cls=cls, parent=parent)
